@@ -518,14 +518,14 @@ impl World {
                 continue;
             }
             for (&t, &c) in &o.rec {
-                let extra = if t as usize == oi { o.looprec } else { 0 };
-                if c + extra > count_of(&o.held, t) {
+                if c > count_of(&o.held, t) {
                     return false;
                 }
             }
-            if o.looprec > count_of(&o.held, oi as ObjId) {
-                return false;
-            }
+            // same-handle self-adoptions are documented no-ops ("Self-adoptions have no effect";
+            // the repository's own tests record them without storing any handle), so they are not
+            // held against the well-formedness of a history
+            let _ = oi;
         }
         true
     }
